@@ -321,6 +321,7 @@ func checkC13(c *Check) {
 	c.inboundAdmission("C13.3 peer-side-refusal")
 	// nothing but Close is ever called on a rejected connection: handled by the Write check above and C03.1
 	c.connUsesInbound("C13.2 reject-paths")
+	c.capturedVarDiscipline("C13.4 every-listener-served")
 }
 
 // connUsesInbound: in handleInboundConn and incomingConnection the conn
